@@ -8,6 +8,7 @@ import (
 	"strings"
 	"testing"
 	"time"
+	"unicode"
 	"unicode/utf8"
 
 	regexp2 "github.com/dlclark/regexp2/v2"
@@ -42,11 +43,11 @@ type st struct {
 	nNamed int
 }
 
-var re2Letters = []rune("abcxyAB01 _-\n")
+var re2Letters = []rune("abcxyAB01 _-\nksKS")
 
 func (s *st) lit() rune {
 	if rapid.IntRange(0, 7).Draw(s.t, "wide") == 0 {
-		return rapid.SampledFrom([]rune{'é', 'λ', '日', 0x1F600, 'Ж'}).Draw(s.t, "widelit")
+		return rapid.SampledFrom([]rune{'é', 'λ', '日', 0x1F600, 'Ж', 0x212A, 0x017F}).Draw(s.t, "widelit")
 	}
 	return rapid.SampledFrom(re2Letters).Draw(s.t, "lit")
 }
@@ -205,6 +206,83 @@ func sanitize(root *ast.Node) {
 	})
 }
 
+// oracleFactorsAcrossCaseFlag over-approximates the patterns on which regexp/syntax's alternation
+// factoring is unsound: an alternation in which a cased letter occurs as a literal (or as a
+// bracket class made only of single characters, which Go turns into a literal) in two different
+// branches with different case sensitivity. (Go 1.25: `B|[Bb]x` does not match "bx",
+// `xB|x(?i:b)y` does not match "xby".)
+func oracleFactorsAcrossCaseFlag(root *ast.Node) bool {
+	type key struct {
+		orbit rune
+		fold  bool
+	}
+	orbit := func(r rune) (rune, bool) {
+		m := r
+		for f := unicode.SimpleFold(r); f != r; f = unicode.SimpleFold(f) {
+			if f < m {
+				m = f
+			}
+		}
+		return m, unicode.SimpleFold(r) != r
+	}
+	letters := func(b *ast.Node) map[key]bool {
+		out := map[key]bool{}
+		b.Walk(func(x *ast.Node) {
+			switch x.K {
+			case ast.KLit:
+				for _, r := range x.R {
+					if o, cased := orbit(r); cased {
+						out[key{o, x.Eff.I}] = true
+					}
+				}
+			case ast.KClass:
+				if x.C == nil || x.C.Neg || x.C.Sub != nil {
+					return
+				}
+				for _, it := range x.C.Items {
+					if it.Kind != cls.Char {
+						return
+					}
+				}
+				for _, it := range x.C.Items {
+					if o, cased := orbit(it.Lo); cased {
+						// [Bb] becomes the folded literal, [B] the plain one: either is possible
+						out[key{o, true}] = true
+						if len(x.C.Items) == 1 && !x.Eff.I {
+							delete(out, key{o, true})
+							out[key{o, false}] = true
+						}
+					}
+				}
+			}
+		})
+		return out
+	}
+	bad := false
+	root.Walk(func(x *ast.Node) {
+		if bad || x.K != ast.KAlt {
+			return
+		}
+		seen := map[key]int{}
+		for i, b := range x.Kids {
+			if b == nil {
+				continue
+			}
+			for k := range letters(b) {
+				if j, ok := seen[key{k.orbit, !k.fold}]; ok && j != i {
+					bad = true
+				}
+			}
+			for k := range letters(b) {
+				if _, ok := seen[k]; !ok {
+					seen[k] = i
+				}
+			}
+		}
+	})
+	return bad
+}
+
 func printRE2(n *ast.Node) string {
 	// the common dialect: like the canonical printer, but no \x{..} for control characters issues: both engines accept \x{HEX}
 	return ast.Print(n, ast.PrintOpts{})
@@ -346,6 +424,15 @@ func check(c Case) error {
 		}
 		return nil
 	}
+	if c.AST != nil {
+		ast.Annotate(c.AST, ast.Opts{}, true) // effective options are not serialised
+	}
+	if c.AST != nil && oracleFactorsAcrossCaseFlag(c.AST) {
+		// oracle defect, not a regexp2 one: regexp/syntax factors `B|(?i:b)x` into `B(?:|x)`
+		// ((*Regexp).Equal ignores FoldCase on literals), so Go's answer is not the reference here.
+		h.Discard("oracle-defect: go regexp factors alternation prefixes across (?i)")
+		return nil
+	}
 	cre.Unwrap().MatchTimeout = 3 * time.Second
 	hasBoundary := strings.Contains(c.Pattern, `\b`) || strings.Contains(c.Pattern, `\B`)
 	// known finding: named groups are numbered after unnamed ones (not in pattern order)
@@ -376,8 +463,15 @@ func check(c Case) error {
 			diff = compare(gre, cre, in, c.Ns)
 			return nil
 		})
+		if h.IsTimeoutPanic(err) {
+			h.Discard("timeout")
+			return nil
+		}
 		if err != nil {
 			diff = err.Error()
+		}
+		if diff != "" && known.RE2IgnoreCaseNotWord("c06-re2-ignorecase-notword", c.AST, true, string(in)) {
+			continue
 		}
 		if diff != "" {
 			red := c
@@ -424,6 +518,10 @@ func TestProp(t *testing.T) {
 	rapid.Check(t, func(t *rapid.T) {
 		c := gen1(t)
 		if err := h.Safely(func() error { return check(c) }); err != nil {
+			if h.IsTimeoutPanic(err) {
+				h.Discard("timeout")
+				return
+			}
 			red := c
 			if f, ok := err.(*failure); ok {
 				red = f.red
